@@ -22,6 +22,7 @@ RULE = ('operation sequences over xtuml.OrderedSet and xtuml.QuerySet: exhaustiv
         'the way. non-trivial = sequence contains a removal, an in-place algebra call and a '
         're-add of a previously removed element; distinct = by (class, sequence).')
 ASSUMPTIONS = [
+    'the operands of a binary operator are sets of their own: whatever is later done to the result must leave them as they were',
     'iteration order is demanded only among elements that arrived by add() or |=; elements that '
     'arrived through ^= or as the result of a binary | & - ^ are compared as a set only',
     'equality is exercised against duplicate-free list, tuple and OrderedSet operands only',
@@ -67,7 +68,7 @@ def operand(cls, spec, real):
     raise ValueError(kind)
 
 
-def apply(cls, real, model, op, case):
+def apply(cls, real, model, op, case, bystanders=None):
     """Apply one op to both; returns the (possibly new) real object."""
     name = op[0]
 
@@ -198,6 +199,11 @@ def apply(cls, real, model, op, case):
             fail('binary-op-mutated-operand', 'binary operator changed its left operand')
         if not isinstance(new, xtuml.OrderedSet):
             fail('binary-op-result-type', 'result is %r' % type(new))
+        if bystanders is not None:
+            # the sequence goes on with the RESULT; the operands are sets of their own and nothing is done to them any more
+            bystanders.append((real, list(before), 'left operand of %r' % (op,)))
+            if isinstance(o, xtuml.OrderedSet) and o is not real:
+                bystanders.append((o, list(dict.fromkeys(op[1][1])), 'right operand of %r' % (op,)))
         real = new
         model.order = []
         model.loose = set(want)
@@ -279,8 +285,13 @@ def run_sequence(clsname, seq, universe):
     try:
         # a corrupted ring of nodes makes iteration run for ever: that is a wrong answer, not a reason to wait
         with TimeLimit(10):
+            bystanders = []
             for op in seq:
-                real = apply(cls, real, model, op, case)
+                real = apply(cls, real, model, op, case, bystanders)
+                for obj, snap, what in bystanders:
+                    if obj is not real and (list(obj) != snap or len(obj) != len(snap) or list(reversed(obj)) != snap[::-1]):
+                        raise Violation('operand-changed-by-later-operation-on-result', case,
+                                        'the %s held %r; after %r (applied to the result) it holds %r' % (what, snap, op, list(obj)))
             compare(cls, real, model, universe, case)
     except TimeLimit.Expired:
         raise Violation('does-not-terminate', case, 'a call on the set (iteration, len, comparison ...) did not return within 10 s', fatal=True)
@@ -341,6 +352,7 @@ def alphabet(universe, reduced=False):
         for n in ('or', 'and', 'sub', 'xor'):
             for o in (('list', (0,)), ('oset', (1, 2))):
                 ops.append((n, o))
+        ops += [('or', ('oset', ())), ('sub', ('list', ()))]          # nothing to add / to take away
         # operands that can be walked only once
         ops += [('and', ('iter', (2, 1, 0))), ('xor', ('gen', (1, 0))), ('iand', ('iter', (2, 0))), ('isub', ('gen', (1, 2)))]
     return ops
